@@ -205,5 +205,20 @@ impl SimpleVobIter<'_> {
 //@ end
 }
 
+
+// vacuity guards (must FAIL)
+pub fn must_fail_set_is_noop(v: &mut SimpleVob, i: usize)
+    requires old(v).wf(), i < old(v).size,
+{
+    let ghost before = v.has(i as int);
+    v.set(i, true);
+    assert(v.has(i as int) == before);
+}
+pub proof fn must_fail_wf_contradictory(v: SimpleVob)
+    requires v.wf(), v.size > 40,
+{
+    assert(false);
+}
+
 } // verus!
 fn main() {}
